@@ -20,6 +20,7 @@ struct Alloc   { int id; };                              /* allocator state: ide
 struct InputIt { const Elem *cur; };                     /* caller's single-pass iterator */
 struct FwdIt   { const Elem *cur; };                     /* caller's forward iterator */
 struct Gen     { int state; };                           /* caller's generator */
+struct Pred    { int state; };                           /* caller's unary predicate (erase_if) */
 struct IList   { const Elem *b; unsigned long n; };      /* std::initializer_list<value_type> */
 typedef int TAGT;
 
@@ -101,8 +102,8 @@ extern const Elem *F_END;
 extern unsigned long alloc_calls, dealloc_calls, gen_calls;
 /* comparison algorithms (C16): the call's arguments and its (uninterpreted, element-consistent) result are recorded */
 extern const Elem *CMP_F1, *CMP_L1, *CMP_F2, *CMP_L2; extern int CMP_KIND; extern _Bool CMP_RESULT; extern unsigned long cmp_calls;
-enum { CMP_NONE = 0, CMP_EQUAL, CMP_LEXLESS, CMP_REMOVE };
-extern Elem *REM_RESULT;
+enum { CMP_NONE = 0, CMP_EQUAL, CMP_LEXLESS, CMP_REMOVE, CMP_REMOVE_IF };
+extern Elem *REM_RESULT; extern int CMP_PRED;
 #ifndef COMPARE_MAY_THROW
 #define COMPARE_MAY_THROW 1
 #endif
